@@ -282,6 +282,14 @@ fn num_bytes_for_k(k: u32) -> usize {
     (((k * 3) >> 2) + 1) as usize
 }
 
+#[cfg(feature = "verif-hooks")]
+impl Array6 {
+    /// Verification hook: (num_zeros, estimator).
+    pub(super) fn verif_parts(&self) -> (u32, &HipEstimator) {
+        (self.num_zeros, &self.estimator)
+    }
+}
+
 #[cfg(test)]
 mod tests {
     use super::*;
